@@ -28,6 +28,18 @@ def gen_body(rng, gspec):
     if g.kind == "int" and g.elem_size <= 2 and r < 0.55:
         n = rng.choice([g.elem_size, g.elem_size, g.elem_size, 0, g.elem_size + 1, max(0, g.elem_size - 1)])
         return {"kind": "hex", "hex": bytes(rng.randrange(256) for _ in range(n)).hex()}
+    if g.kind == "int" and rng.random() < 0.08:
+        # an element of ANOTHER integer group (valid there), re-encoded at this group's width
+        other = rng.choice(["i1024", "i2048", "i3072"])
+        og = worlds.model_group({"kind": other})
+        v = rng.choice([og.base, worlds.model_params({"group": {"kind": other}}).M,
+                        worlds.model_params({"group": {"kind": other}}).N, og.mul(og.base, rng.randrange(2, 50))])
+        raw = v.to_bytes(og.elem_size, "big")
+        if g.elem_size >= og.elem_size:
+            raw = raw.rjust(g.elem_size, b"\x00")
+        else:
+            raw = raw[-g.elem_size:]
+        return {"kind": "hex", "hex": raw.hex(), "foreign": other}
     kind = rng.choice(MALFORMED)
     f = {"kind": kind, "base_k": rng.randrange(1, 50)}
     es = g.elem_size
@@ -90,9 +102,24 @@ def generate(rng, tier="quick"):
         scan = "one-byte-field-all"
     else:
         scan = None
-    # a few more strings against the decoder in the same run
+    # a few more strings against the decoder in the same run; some offered twice in a row
+    # (a decoder must not become lenient because it has seen a string before)
     for _ in range(rng.choice([0, 0, 1, 3])):
-        steps.append({"op": "decode", "pset": 0, "body": gen_body(rng, gspec)})
+        b2 = gen_body(rng, gspec)
+        for _ in range(rng.choice([1, 1, 2, 3])):
+            steps.append({"op": "decode", "pset": 0, "body": b2})
+    if rng.random() < 0.25:
+        # ... and elements of the other shipped integer groups first validated by their own group
+        other = rng.choice(["i1024", "i2048"])
+        if gspec["kind"] in ("i1024", "i2048", "i3072") and other != gspec["kind"]:
+            cfg["psets"].append({"group": {"kind": other}})
+            ob = {"kind": "valid", "k": rng.randrange(2, 50)}
+            steps.insert(0, {"op": "decode", "pset": 1, "body": ob})
+            og = worlds.model_group({"kind": other})
+            raw = og.enc(og.mul(og.base, ob["k"]))
+            es = worlds.model_group(gspec).elem_size
+            raw = raw.rjust(es, b"\x00") if es >= len(raw) else raw[-es:]
+            steps.append({"op": "decode", "pset": 0, "body": {"kind": "hex", "hex": raw.hex()}})
     scn = {"property": PROP, "config": cfg, "steps": steps}
     if scan:
         scn["intent"] = {"scan": scan}
